@@ -388,8 +388,14 @@ impl Server for Unreal2Server {
         match self.outcomes[k].get(n).copied().unwrap_or(Outcome::Valid) {
             Outcome::Silent | Outcome::Partial => {}
             Outcome::Malformed => {
-                let v = cx.draw(3);
-                if v == 0 {
+                let v = cx.draw(4);
+                if v == 3 && k == 2 && self.players.len() >= 2 {
+                    // a players list of several datagrams whose first one is fine and whose next one is not a
+                    // players datagram at all (too short for a header, or of another packet type)
+                    cx.udp_send(from, self.players[0].clone());
+                    let next = if cx.draw(2) == 0 { vec![0x80, 0, 0] } else { self.info.clone() };
+                    cx.udp_send_after(from, next, 10_000);
+                } else if v == 0 {
                     cx.udp_send(from, vec![0x80, 0, 0]);
                 } else if v == 2 && k != 0 && (if k == 1 { &self.rules } else { &self.players }).len() >= 2 {
                     // a list of several datagrams whose first one is fine and whose next one is cut inside an
